@@ -1487,8 +1487,16 @@ chkpnt1(uid_t u)
 	if (UNLIKELY(!inittedp)) {
 		echs_icalify_init(fd, (echs_instruc_t){INSVERB_UNK});
 	}
-	echs_icalify_fini(fd);
-	if (close(fd) < 0 || renameat(qdirfd, fn, qdirfd, fn + 1) < 0) {
+	with (int lost = echs_icalify_fini(fd)) {
+		/* never put an incomplete file in place of the old one */
+		if (close(fd) < 0 || lost < 0) {
+			int x = errno;
+			(void)unlinkat(qdirfd, fn, 0);
+			errno = x;
+			goto err;
+		}
+	}
+	if (renameat(qdirfd, fn, qdirfd, fn + 1) < 0) {
 		int x = errno;
 		(void)unlinkat(qdirfd, fn, 0);
 		errno = x;
@@ -1586,13 +1594,16 @@ chkpnta(void)
 			}
 			break;
 		}
-		echs_icalify_fini(fd);
+		int lost = echs_icalify_fini(fd);
+
 		if (snprintf(fn, sizeof(fn), ".echsq_%u.ics", u) < 0) {
 			/* oh fuck, there's really nothing we can do */
 			rc = -1;
 			continue;
 		}
-		if (close(fd) < 0 || renameat(qdirfd, fn, qdirfd, fn + 1) < 0) {
+		/* never put an incomplete file in place of the old one */
+		if (close(fd) < 0 || lost < 0 ||
+		    renameat(qdirfd, fn, qdirfd, fn + 1) < 0) {
 			ECHS_ERR_LOG("\
 cannot checkpoint user %u's queue", u);
 			(void)unlinkat(qdirfd, fn, 0);
